@@ -117,7 +117,7 @@ pub fn check_case(ctx: &mut Ctx, case: &Case) {
 
 const ALNUM_RICH: &[&str] = &[
     "a", "b1", "é", "7", "@", "#", "~", "{", "}", "(", ")", "%", "|", "=", "&", "-", ":", ">", ">>", "--", "[-", "-]", "---", "\\",
-    " ", "\n", "\r\n", ".", "1", "[mode]", "x: y", "?", "+", "/", "\0",
+    " ", "\n", "\r\n", ".", "1", "[mode]", "x: y", "?", "+", "/", "\0", "—", "…",
 ];
 
 pub fn fence_family() -> Vec<String> {
